@@ -19,7 +19,7 @@ import numpy as np
 from vcommon import Run, tlc, require_tlc_ok, import_hvsrpy, main_wrapper
 
 DT = {1: 0.005, 2: 0.01, 3: 0.02}
-FCMAX = {0: 20.0, 1: 40.0, 2: 80.0, 3: 150.0}
+FCMAX = {0: 20.0, 1: 26.0, 2: 52.0, 3: 104.0}      # just above the Nyquist frequencies 25 / 50 / 100 Hz: the smoothing window still reaches real samples, so only the refusal stops a curve from being reported
 
 
 def main():
